@@ -12,6 +12,9 @@ the input cell, in exact rational arithmetic:
   site of every atom is the image of the site of its label atom under a tabulated operation, and the
   species agree (W0a); the sites of two different label atoms of one species are related by no
   tabulated operation (W0b);
+* (W5) for every label atom `l` and every atom `j` of its species: `orbits[j] = l` ⇔ some tabulated
+  operation of the reported Hall number carries the std_cell site of `l` onto that of `j` within
+  `4·symprec` (the property's "same label ⇔ related by a tabulated operation", through the label atoms);
 * (W1) tabulated multiplicity of the reported letter × `Stab` = number of conventional operations;
 * (W2) the point group named by the reported site-symmetry symbol has order `Stab`, and the symbol
   is the tabulated symbol of the letter;
@@ -147,11 +150,11 @@ def orbitOnSubspace (d : DatasetQ) (cen : Centering) (sites : List (Option Nat))
     | none => false
     | some j => (centeringShifts cen).any fun c => onSubspace S.lat gi sp (S.pos[j]!.add c) r2
 
-/-- std_cell sites onto which the operations carry site `j` (exact search within `tinyEps2`). -/
-def siteImages (d : DatasetQ) (ops : List HOp) (j : Nat) : List Nat :=
+/-- std_cell sites onto which the operations carry site `j` (exact search within `r2`). -/
+def siteImages (d : DatasetQ) (ops : List HOp) (j : Nat) (r2 : Rat) : List Nat :=
   let S := d.stdCell
   let ixS := SiteIndex.build S
-  ops.filterMap fun g => ixS.find ((g.rot.applyQ S.pos[j]!).add (g.trans.toQ 12)) S.num[j]! tinyEps2
+  ops.filterMap fun g => ixS.find ((g.rot.applyQ S.pos[j]!).add (g.trans.toQ 12)) S.num[j]! r2
 
 /-- Number of conventional operations of a Hall number (0 if it has none). -/
 def nopsOfHall (h : Nat) : Nat :=
@@ -194,7 +197,7 @@ def WCtx.build (cs : CaseQ) (d : DatasetQ) (ops : List HOp) (cen : Centering) : 
     reach := (List.range n).map fun l =>
       if d.orbits[l]! == l then
         match sites[l]! with
-        | some j => siteImages d ops j
+        | some j => siteImages d ops j r2
         | none => []
       else [] }
 
@@ -232,6 +235,42 @@ def labelsSeparated (cs : CaseQ) (d : DatasetQ) (c : WCtx) : Bool :=
     | some j1, some j2 =>
       c.ops.all fun g => !(withinPeriodic S.lat gi (((g.rot.applyQ S.pos[j1]!).add (g.trans.toQ 12)).sub S.pos[j2]!) tinyEps2)
     | _, _ => false
+
+/-- (W5) labels against the tabulated operations, pair by pair through the label atoms: for every
+label atom `l` (`orbits[l] = l`) and every atom `j` of its species,
+`orbits[j] = l  ⇔  some tabulated operation carries the std_cell site of l onto the std_cell site of j`
+(within `4·symprec`; `reach[l]` lists the sites found by the exact search from the images of the
+site of `l`).  Independent of the generator's ground truth. -/
+def labelsMatchOps (cs : CaseQ) (d : DatasetQ) (c : WCtx) : Bool :=
+  let n := cs.cell.n
+  (List.range n).all fun l => !(d.orbits[l]! == l) ||
+    (List.range n).all fun j => !(cs.cell.num[l]! == cs.cell.num[j]!) ||
+      match c.sites[j]! with
+      | some sj => (d.orbits[j]! == l) == (c.reach[l]!).contains sj
+      | none => false
+
+/-- First pair violating (W5), for the message. -/
+def describeLabelMismatch (cs : CaseQ) (d : DatasetQ) (c : WCtx) : String :=
+  let n := cs.cell.n
+  let bad := (List.range n).findSome? fun l =>
+    if !(d.orbits[l]! == l) then none else
+    (List.range n).findSome? fun j =>
+      if !(cs.cell.num[l]! == cs.cell.num[j]!) then none else
+      match c.sites[j]! with
+      | some sj => if (d.orbits[j]! == l) == (c.reach[l]!).contains sj then none else some (l, j, (c.reach[l]!).contains sj)
+      | none => some (l, j, false)
+  match bad with
+  | some (l, j, rel) =>
+    s!"C07: atoms {l},{j} (same species): orbit label of {j} is {d.orbits[j]!}, label atom {l}; related by a tabulated operation of Hall {c.h} in std_cell (4*symprec) = {rel}"
+  | none => "C07: orbit labels do not match the tabulated operations in std_cell"
+
+/-- An `Err` on a premise-satisfying input that is a failed Wyckoff assignment belongs to C07
+(other errors on such inputs are C03/C10).  `matching`: the request (if a Hall number) names a
+setting of the crystal's own type. -/
+def checkC07err (matching : Bool) (name : String) : List String :=
+  if matching && name == "WyckoffPositionAssignmentError" then
+    ["C07: WyckoffPositionAssignmentError on a crystal whose atoms sit on tabulated positions of the requested setting"]
+  else []
 
 /-- Message for a failing atom (diagnosis only; the verdict is `atomOk`). -/
 def describeAtom (cs : CaseQ) (d : DatasetQ) (c : WCtx) (i : Nat) : String :=
@@ -274,7 +313,8 @@ def checkC07wyckoff (cs : CaseQ) (d : DatasetQ) : List String :=
     let f1 := (List.range n).filterMap fun i => if atomOk cs d c i then none else some (describeAtom cs d c i)
     let f2 := if labelsSeparated cs d c then [] else
       ["C07: two atoms with different orbit labels and the same species are related by a tabulated operation in std_cell"]
-    cap (f1 ++ f2) 3
+    let f3 := if labelsMatchOps cs d c then [] else [describeLabelMismatch cs d c]
+    cap (f1 ++ f2 ++ f3) 3
   | _, _ => [s!"C07: Hall number {d.hallNumber} has no tabulated operations"]
 
 end Moyo.Oracle
